@@ -42,12 +42,6 @@ theorem IntoInv.inb {X : Ctx} {s : St} {es : List Elem} {it : IntoIterSt}
   have := inb_blk s b hb i (by omega)
   rw [h.ptr, ← hal]; exact this
 
-theorem lift_isDefault (X : Ctx) (s : St) : VM.lift X GM.isDefault s = (.ok s.v.isDefault, s) :=
-  lift_read X _ s _ (by simp [GM.isDefault, hsOf])
-
-theorem lift_hdrLen (X : Ctx) (s : St) (hd : s.v.isDefault = false) : VM.lift X GM.hdrLen s = (.ok s.v.len, s) :=
-  lift_read X _ s _ (by simp [GM.hdrLen, hsOf, hd])
-
 theorem IntoInv.shrink {X : Ctx} {v : VSt} {es : List Elem} {it : IntoIterSt} (h : IntoInv X v es it)
     (n : Nat) (it' : IntoIterSt) (hp : it'.ptr = it.ptr) (hb : it'.pos + n ≤ es.length) :
     IntoInv X { v with len := n } es it' :=
